@@ -137,7 +137,9 @@ def build_harness(featset='full', release=False):
         exe = os.path.join(BUILD, 'target', 'release' if release else 'debug', 'harness')
         # each feature set overwrites the same binary: keep a private copy
         dst = os.path.join(BUILD, f"harness-{featset}-{'release' if release else 'debug'}")
-        shutil.copy(exe, dst)
+        tmp = dst + f'.tmp{os.getpid()}'
+        shutil.copy(exe, tmp)
+        os.replace(tmp, dst)
         return dst
 
 
@@ -248,7 +250,7 @@ def cmd_index(lines, pos):
 
 # ------------------------------------------------------------------ monitors (model-independent, on the implementation's log)
 
-def monitors(lines, feats):
+def monitors(lines, feats, main=None):
     """Returns list of (property, message, line_no)."""
     v = []
     allocs, freed, dropped, fins, rearm, sides = {}, {}, {}, {}, {}, {}
@@ -259,6 +261,8 @@ def monitors(lines, feats):
     exec_seen = None
     pending_finagain = None
     last_free = None
+    cur_cmd = ''
+    rearm_total = 0
     seg_drop_seen = False       # a collector 'drop' callback seen in the current top-level command
     for n, l in enumerate(lines):
         t = l.split()
@@ -266,6 +270,7 @@ def monitors(lines, feats):
             continue
         if t[0] == '--':
             in_cmd = int(t[1]); seg_drop_seen = False; last_free = None
+            cur_cmd = main[in_cmd] if (main is not None and in_cmd < len(main)) else ''
             continue
         if t[0] == 'BAD':
             kind = t[1]
@@ -309,8 +314,8 @@ def monitors(lines, feats):
                 if not feats['fin']:
                     v.append(('C05', f'finalize called on {o} with finalization disabled', n))
                 fins[o] = fins.get(o, 0) + 1
-                if fins[o] > 1 + rearm.get(o, 0):
-                    v.append(('C05', f'object {o} finalized {fins[o]} times with {rearm.get(o, 0)} re-arms', n))
+                if fins[o] > 1 + rearm_total:
+                    v.append(('C05', f'object {o} finalized {fins[o]} times with {rearm_total} successful finalize_again calls in the program so far', n))
                 if o in dropped:
                     v.append(('C05', f'finalize of {o} after its drop', n))
                 if not f:
@@ -326,6 +331,8 @@ def monitors(lines, feats):
         elif t[0] == 'res':
             if t[1] == 'unwrap-ok' and last_free is not None:
                 unwrapped.add(last_free)
+            if t[1] == 'ok' and cur_cmd.startswith('finagain'):
+                rearm_total += 1
         elif t[0] == 'obs':
             o = int(t[1])
             kv = dict(x.split('=') for x in t[2:])
